@@ -66,10 +66,22 @@ var props = map[string]propCfg{
 	"C27": {
 		Flavor: "worker-c27", Rewrite: "map", Level: "exploration",
 		QuickRuns: 1 << 30, QuickDL: 50 * time.Second, ThorDL: 30 * time.Minute, ThorSeeds: 5,
-		Rule: "a run = one program of the corpus (waroot/hello.wa, hello.wz, waroot/examples/*.wa, examples/misc/*.wa, tests/*.wa, every examples/*/wa.mod project, 4 generated driver programs), one configuration (target OS, with/without watstrip) and one tape-drawn schedule for the order of every range-over-map in the compiler (reverse everywhere, shuffle everywhere, or a per-site subset perturbed by reverse/rotate/swap/shuffle); the pipeline loader -> compiler_wat -> optional watstrip -> wat2wasm is run with the canonical order twice (repeat in one process) and once under the schedule; SHA-256 of WAT and wasm must be equal, and baselines must agree across the worker processes. Non-trivial = at least one range over a map with >= 2 keys had its order changed; distinct = distinct event-log digests.",
+		Rule:      "a run = one program of the corpus (waroot/hello.wa, hello.wz, waroot/examples/*.wa, examples/misc/*.wa, tests/*.wa, every examples/*/wa.mod project, 4 generated driver programs), one configuration (target OS, with/without watstrip) and one tape-drawn schedule for the order of every range-over-map in the compiler (reverse everywhere, shuffle everywhere, or a per-site subset perturbed by reverse/rotate/swap/shuffle); the pipeline loader -> compiler_wat -> optional watstrip -> wat2wasm is run with the canonical order twice (repeat in one process) and once under the schedule; SHA-256 of WAT and wasm must be equal, and baselines must agree across the worker processes. Non-trivial = at least one range over a map with >= 2 keys had its order changed; distinct = distinct event-log digests.",
 		Real:      []string{"loader", "type checker", "SSA builder", "compiler_wat backend", "watstrip", "watutil.Wat2Wasm"},
 		Stub:      []string{"the order in which a range over a Go map yields keys (verifsim.Keys via AST-rewritten copies of 49 files)", "first-store serial numbers as canonical order for pointer/interface keys"},
 		Assume:    append([]string{"other sources of nondeterminism (goroutines, time, addresses) are not behind a seam; they are only covered by the repeat and cross-process comparisons", "a dependence on a 3-cycle of keys only would not be produced by Go's runtime either way"}, commonAssume...),
 		StateRule: "(program, configuration) pairs compiled under a perturbed order",
+	},
+	"C21": {
+		Flavor: "worker-c21", Rewrite: "sched", Level: "exploration",
+		RewriteArgs: []string{"-roots", "wa-lang.org/wa/internal/lsp",
+			"-densepkgs", "wa-lang.org/wa/internal/lsp,wa-lang.org/wa/internal/lsp/jsonrpc2,wa-lang.org/wa/internal/lsp/fakenet",
+			"-schedpkgs", "wa-lang.org/wa/internal/lsp/protocol,wa-lang.org/wa/internal/lsp/event"},
+		QuickRuns: 1 << 30, QuickDL: 45 * time.Second, ThorDL: 30 * time.Minute, ThorSeeds: 5,
+		Rule:      "a run = one simulated editing session of 1..40 messages against the real language server inside a testing/synctest bubble: initialize, didOpen, full and incremental didChange (1..4 ordered changes whose UTF-16 ranges the editor model computes from its own text over ASCII, 2/3-byte and astral characters, LF and CRLF), invalid edits, didSave, requests and cancels, on three documents (.wa and .wz URIs); each message is delivered in tape-chosen pieces with the server scheduled in between, reads are shortened, a connection may be cut inside a message; which of the server's goroutines (reader loop, feeders, one handler goroutine per message) runs next is a tape decision at every statement of the lsp/jsonrpc2/fakenet packages. At drain points and at the end the server's copy of every open document must equal the editor's; after an invalid edit or a cut it must equal the last completely delivered state; Run must return after EOF. Non-trivial = at least one context switch; distinct = distinct event-log digests (scripts + schedules).",
+		Real:      []string{"LSPServer.Run and handlers (DidOpen/DidChange/...)", "protocol.Handlers chain (CancelHandler, AsyncHandler, MustReplyHandler, ServerHandler)", "protocol.Mapper (UTF-16 positions)", "jsonrpc2 header stream and connection", "fakenet connection and its feeder goroutines"},
+		Stub:      []string{"stdin/stdout (blocking in-memory pipe with short reads and cut)", "the editor (model of the documents)", "goroutine scheduling (verifsim token scheduler over 788 yield points, 26 mutex sites, 6 go statements, 31 blocking statements)", "constructor taking the transport instead of os.Stdin/os.Stdout"},
+		Assume:    append([]string{"positions between the halves of a surrogate pair, between CR and LF, beyond a line's end, and lone CR are never generated (the LSP specification allows more than one outcome)", "code that is not rewritten (encoding/json, context) runs atomically between yields"}, commonAssume...),
+		StateRule: "(switch-probability knob, short-read knob, session length / 4)",
 	},
 }
